@@ -35,7 +35,7 @@ def P(pid):
             ('A5 ciphersuite constants', rf_consts.rule_ciphersuite_constants, 30),
             ('RF-T size thresholds (uniform behaviour in L / lengths)', rf_frame.rule_size_thresholds, 3),
             ('RF-P accumulation loops cover every message', lambda c: rf_codec.rule_loop_coverage(c, fns=['bbsplus::signature::core_sign', 'bbsplus::signature::core_verify']), 2),
-            ('RF-M generator offsets', rf_codec.rule_generator_offsets, 6),
+            ('RF-M generator / message pairing', rf_codec.rule_generator_pairing, 8),
         ]
         meta['explanation'] = ('Structural clauses of signature completeness decided on the MIR of the working tree: None==empty '
                                'normalisation of header/messages (complete), identical interface constants reaching every DST/seed role '
@@ -108,7 +108,7 @@ def P(pid):
             ('RF-O production/mock twin agreement', rf_rand.rule_cfg_twins, 8),
             ('RF-B interface constants proof_gen/proof_verify', lambda c: rf_consts.rule_interface_constants(c, [T.POK + 'proof_gen', T.POK + 'proof_verify']), 10),
             ('RF-B index normalisation', rf_codec.rule_index_normalisation, 3),
-            ('RF-M generator offsets', rf_codec.rule_generator_offsets, 6),
+            ('RF-M generator / message pairing', rf_codec.rule_generator_pairing, 8),
             ('RF-P accumulation loops cover every message', lambda c: rf_codec.rule_loop_coverage(c, fns=['bbsplus::proof::proof_init', 'bbsplus::proof::proof_verify_init', 'bbsplus::proof::proof_finalize']), 8),
             ('RF-T size thresholds (uniform behaviour in L / lengths)', rf_frame.rule_size_thresholds, 3),
             ('RF-G2 role positions (prover)', rf_rand.rule_role_projection, 6),
